@@ -234,6 +234,13 @@ def p2pkhFromScript (H160 : Bytes → Bytes) (chain : ChainParams) (spk : Bytes)
       | none => .error .addrerr
     else .error .addrerr
 
+/-- D18, the KNOWN defect, as coded: what the shipped bare-uncompressed-pubkey branch returns for a
+    (canonicalised) script `41 <65-byte key> ac` — the P2PKH address of the hash160 of
+    `scriptPubKey[1:65]`, 64 of the 65 key bytes.  Used only by the harness to recognise exactly this
+    known outcome (driver op `c12.bare.expect`); no theorem is about it. -/
+def bareUncompressedAsCoded (H160 : Bytes → Bytes) (chain : ChainParams) (s : Bytes) : Res Addr :=
+  subclassFromBytes chain chain.pubkeyAddr (H160 (slice s 1 65)) none
+
 /-- `CBitcoinAddress.from_scriptPubKey(scriptPubKey)` -/
 def fromScript (H160 : Bytes → Bytes) (chain : ChainParams) (spk : Bytes) : Res Addr :=
   orElse (orElse (p2wshFromScript spk) fun _ => orElse (p2wpkhFromScript spk) fun _ => .error .addrerr)
